@@ -94,6 +94,10 @@ impl World {
         self.disk.lock().unwrap().fault_fired
     }
 
+    pub fn fault_file(&self) -> String {
+        self.disk.lock().unwrap().fault_file.clone()
+    }
+
     pub fn steps(&self) -> u64 {
         self.disk.lock().unwrap().steps
     }
